@@ -105,6 +105,7 @@ def gen_case(rng, index, tier):
             '-if': ['-f', '-i']}[opt]
     replies = [rng.choice(['y', 'n', 'Y', 'N', '', 'yes', 'maybe'])
                for _ in args]
+    c01.add_stale(L, rng, [a for a in args if 'rel' in a], index, p=0.25)
     case = L.desc()
     case['args'] = args
     case['opts'] = opts
